@@ -1,7 +1,7 @@
 CONSTANTS
   MaxLen = 2
   NumRetries = {0, 5}
-  Defects = {"SameHostRetry"}
+  Defects = {"GlobalTimerRestartsOnRetry"}
 SPECIFICATION Spec
 INVARIANTS WithinGlobalTimeout ActionsAppliedOnce AttemptsBounded FreshHost RetryMade ReplyIsLast
 PROPERTY RetryOnlyIfConfigured
